@@ -49,8 +49,8 @@ pub fn def() -> CheckDef {
 
 fn file_put(g: &mut Gen, cfg: &GenCfg, path: &str, size: usize) -> EditOp {
     let mut n = g.file_node(cfg, None);
-    if let NodeKind::File { cseed, .. } = n.kind {
-        n.kind = NodeKind::File { size, cseed };
+    if let NodeKind::File { cseed, period, .. } = n.kind {
+        n.kind = NodeKind::File { size, cseed, period };
     }
     n.meta.mode = 0o644;
     EditOp::Put { path: path.to_string(), node: n }
@@ -74,6 +74,8 @@ fn generate(seed: u64, tier: Tier) -> Scenario {
         owners: false,
         symlinks: false,
         max_file: 4096,
+        big_twins: false,
+        raw_names: false,
     };
     let mut g = Gen::new(r.derive("gen"));
     let root_meta = g.root_meta(&cfg);
